@@ -222,3 +222,8 @@ def run(ck, F, tier):
     c05.t7_parsers_are_transactions(ck, F)
     ck.rule('T4', 'transaction wrappers roll back on failure (shared with C05)')
     c05.t4_wrappers(ck, F)
+    # what commit() does to the position decides where the next picture starts: the helper forms of C14 (commit = drain(0..pos/8); pos %= 8, ...) re-run here
+    from . import c14
+    from ..report import Scoped
+    c14.e_helper_forms(Scoped(ck, 'C14.'), F)
+    c14.c_read_is_peek_then_skip(Scoped(ck, 'C14.'), F)
